@@ -1,6 +1,5 @@
-(** Executable model of socket/socks5.c.  The local arrays data[2] / data[22] are uninitialised
-    (value G) before the read, and the code tests the buffer *size* instead of the received length,
-    so a short read leaves G in the tail of the array.  No proofs here. *)
+(** Executable model of socket/socks5.c: each reply is collected in recv_buf[22] / recv_len across reads
+    (socks5_fill) before it is looked at.  No proofs here. *)
 From Coq Require Import ZArith List Bool.
 From Nice Require Import Stream.StreamBase Stream.TcpQueueModel Stream.PsslModel.
 Import ListNotations.
@@ -9,85 +8,101 @@ Local Open Scope Z_scope.
 Definition SK_INIT := 0. Definition SK_AUTH := 1. Definition SK_CONNECT := 2. Definition SK_CONNECTED := 3. Definition SK_ERROR := 4.
 
 Record sst := { s_state : Z; s_base : bool; s_user : option (list Z); s_pass : option (list Z);
-                s_addr : list Z; s_queue : list (list Z) }.
+                s_addr : list Z; s_queue : list (list Z); s_rbuf : list Z; s_rlen : Z }.
 
 Definition socks_init (user pass : option (list Z)) (addr : list Z) : sst :=
-  {| s_state := SK_INIT; s_base := true; s_user := user; s_pass := pass; s_addr := addr; s_queue := [] |}.
+  {| s_state := SK_INIT; s_base := true; s_user := user; s_pass := pass; s_addr := addr; s_queue := [];
+     s_rbuf := repZ 0 22; s_rlen := 0 |}.
 Definition has_auth (s : sst) : bool := match s_user s, s_pass s with None, None => false | _, _ => true end.
 Definition socks_greeting (s : sst) : list Z := if has_auth s then [5; 2; 0; 2] else [5; 1; 0].
 
-Definition set_state (s : sst) (st : Z) (q : list (list Z)) : sst :=
-  {| s_state := st; s_base := s_base s; s_user := s_user s; s_pass := s_pass s; s_addr := s_addr s; s_queue := q |}.
+Definition upd (s : sst) (st : Z) (q : list (list Z)) (rb : list Z) (rl : Z) : sst :=
+  {| s_state := st; s_base := s_base s; s_user := s_user s; s_pass := s_pass s; s_addr := s_addr s; s_queue := q;
+     s_rbuf := rb; s_rlen := rl |}.
 Definition socks_error (s : sst) : prog sst :=
-  PDone {| s_state := SK_ERROR; s_base := false; s_user := s_user s; s_pass := s_pass s; s_addr := s_addr s; s_queue := s_queue s |} (-1).
+  PDone {| s_state := SK_ERROR; s_base := false; s_user := s_user s; s_pass := s_pass s; s_addr := s_addr s;
+           s_queue := s_queue s; s_rbuf := s_rbuf s; s_rlen := s_rlen s |} (-1).
 
 Definition socks_connect_msg (s : sst) : list Z :=
   [5; 1; 0] ++ (if lenZ (s_addr s) =? 6 then [1] else [4]) ++ s_addr s.
-Definition send_connect (s : sst) : prog sst := PDn (socks_connect_msg s) (PDone (set_state s SK_CONNECT (s_queue s)) 0).
+Definition send_connect (s : sst) : prog sst :=
+  PDn (socks_connect_msg s) (PDone (upd s SK_CONNECT (s_queue s) (s_rbuf s) (s_rlen s)) 0).
 
 Definition olen (o : option (list Z)) : Z := match o with Some l => lenZ l | None => 0 end.
 Definition oget_l (o : option (list Z)) : list Z := match o with Some l => l | None => [] end.
 
-(** read [n] bytes into the local array [data] (cap bytes, all G before) at offset 0 *)
-Definition read_into (G cap n : Z) (k : list Z -> list Z -> prog sst) : prog sst :=
-  PRead true n (fun d => match mwrite (repZ G (Z.to_nat cap)) 0 d with None => PFault | Some data => k d data end).
+(* socks5_fill: continuation after the read obtained [d] *)
+Definition fill_k (s : sst) (want : Z) (kdone : sst -> prog sst) (d : list Z) : prog sst :=
+  if lenZ d =? 0 then PDone s 0
+  else match mwrite (s_rbuf s) (s_rlen s) d with
+       | None => PFault
+       | Some rb =>
+         let s' := upd s (s_state s) (s_queue s) rb (s_rlen s + lenZ d) in
+         if want <=? s_rlen s' then kdone s' else PDone s' 0
+       end.
+(* socks5_fill (priv, want): [kdone] when the bytes are there, [kneg] when there is no base socket;
+   "need more" returns 0 from socket_recv_messages in every caller *)
+Definition fill (s : sst) (want : Z) (kdone : sst -> prog sst) (kneg : prog sst) : prog sst :=
+  if 22 <? want then PFault                       (* g_assert (want <= sizeof recv_buf) *)
+  else if want <=? s_rlen s then kdone s
+  else if s_base s then PRead false (w64 (want - s_rlen s)) (fill_k s want kdone)
+  else kneg.
 
 Definition at_ (data : list Z) (i : Z) (k : Z -> prog sst) : prog sst :=
   match mread data i with None => PFault | Some v => k v end.
 
-Definition socks_body (G : Z) (s : sst) : prog sst :=
+Definition socks_init_done (s : sst) : prog sst :=
+  let s0 := upd s (s_state s) (s_queue s) (s_rbuf s) 0 in      (* recv_len = 0 *)
+  at_ (s_rbuf s) 0 (fun d0 => at_ (s_rbuf s) 1 (fun d1 =>
+    if d0 =? 5 then
+      if d1 =? 2 then
+        if has_auth s0 then
+          let ulen := olen (s_user s0) in let plen := olen (s_pass s0) in
+          if 255 <? ulen then socks_error s0
+          else if 255 <? plen then socks_error s0
+          else PDn ([1; ulen] ++ oget_l (s_user s0) ++ [plen] ++ oget_l (s_pass s0))
+                   (PDone (upd s0 SK_AUTH (s_queue s0) (s_rbuf s0) 0) 0)
+        else socks_error s0
+      else if d1 =? 0 then send_connect s0
+      else socks_error s0
+    else socks_error s0)).
+
+Definition socks_auth_done (s : sst) : prog sst :=
+  let s0 := upd s (s_state s) (s_queue s) (s_rbuf s) 0 in
+  at_ (s_rbuf s) 0 (fun d0 => at_ (s_rbuf s) 1 (fun d1 =>
+    if (d0 =? 1) && (d1 =? 0) then send_connect s0 else socks_error s0)).
+
+Definition socks_tail_done (s : sst) : prog sst :=
+  flush_queue (s_queue s) (PDone (upd s SK_CONNECTED [] (s_rbuf s) 0) 0).
+
+(* the first four bytes of the connect reply: how long the whole reply is (None = refused / malformed) *)
+Definition head_class (d0 d1 d2 d3 : Z) : option Z :=
+  if d0 =? 5 then
+    if d1 =? 0 then
+      if d2 =? 0 then
+        if d3 =? 1 then Some (4 + 6) else if d3 =? 4 then Some (4 + 18) else None
+      else None
+    else None
+  else None.
+
+Definition socks_head_done (s : sst) : prog sst :=
+  at_ (s_rbuf s) 0 (fun d0 => at_ (s_rbuf s) 1 (fun d1 => at_ (s_rbuf s) 2 (fun d2 => at_ (s_rbuf s) 3 (fun d3 =>
+    match head_class d0 d1 d2 d3 with
+    | Some w => fill s w socks_tail_done (socks_error s)
+    | None => socks_error s
+    end)))).
+
+Definition socks_body (s : sst) : prog sst :=
   let st := s_state s in
   if st =? SK_CONNECTED then (if s_base s then passthrough s else PDone s (-1))
-  else if st =? SK_INIT then
-    if s_base s then
-      read_into G 2 2 (fun d data =>
-        if lenZ d =? 0 then PDone s 0 else
-        at_ data 0 (fun d0 => at_ data 1 (fun d1 =>
-          if d0 =? 5 then
-            if d1 =? 2 then
-              if has_auth s then
-                let ulen := olen (s_user s) in let plen := olen (s_pass s) in
-                if 255 <? ulen then socks_error s
-                else if 255 <? plen then socks_error s
-                else PDn ([1; ulen] ++ oget_l (s_user s) ++ [plen] ++ oget_l (s_pass s))
-                         (PDone (set_state s SK_AUTH (s_queue s)) 0)
-              else socks_error s
-            else if d1 =? 0 then send_connect s
-            else socks_error s
-          else socks_error s)))
-    else PDone s (-1)
-  else if st =? SK_AUTH then
-    if s_base s then
-      read_into G 2 2 (fun d data =>
-        if lenZ d =? 0 then PDone s 0 else
-        at_ data 0 (fun d0 => at_ data 1 (fun d1 =>
-          if (d0 =? 1) && (d1 =? 0) then send_connect s else socks_error s)))
-    else PDone s (-1)
-  else if st =? SK_CONNECT then
-    if s_base s then
-      read_into G 22 4 (fun d data =>
-        if lenZ d =? 0 then PDone s 0 else
-        at_ data 0 (fun d0 => at_ data 1 (fun d1 => at_ data 2 (fun d2 => at_ data 3 (fun d3 =>
-          if d0 =? 5 then
-            if d1 =? 0 then
-              if d2 =? 0 then
-                let tail (n : Z) :=
-                  PRead true n (fun t =>
-                    match mwrite data 0 t with
-                    | None => PFault
-                    | Some _ => if lenZ t =? 0 then socks_error s
-                                else flush_queue (s_queue s) (PDone (set_state s SK_CONNECTED []) 0)
-                    end) in
-                if d3 =? 1 then tail 6 else if d3 =? 4 then tail 18 else socks_error s
-              else socks_error s
-            else socks_error s
-          else socks_error s)))))
-    else PDone s (-1)
+  else if st =? SK_INIT then fill s 2 socks_init_done (PDone s (-1))
+  else if st =? SK_AUTH then fill s 2 socks_auth_done (PDone s (-1))
+  else if st =? SK_CONNECT then fill s 4 socks_head_done (PDone s (-1))
   else socks_error s.
 
 Definition socks_send (s : sst) (reliable : bool) (bufs : list (list Z)) : sst * list ev :=
   if s_state s =? SK_CONNECTED then
     if s_base s then (s, [Dn (concat bufs); Snd 1]) else (s, [Snd (-1)])
   else if s_state s =? SK_ERROR then (s, [Snd (-1)])
-  else if reliable then (set_state s (s_state s) (queue_send (s_queue s) bufs), [Snd 1])
+  else if reliable then (upd s (s_state s) (queue_send (s_queue s) bufs) (s_rbuf s) (s_rlen s), [Snd 1])
   else (s, [Snd 0]).
